@@ -37,6 +37,16 @@ inductive NOp where
   | op (o : Op)
   | removeLanelet (l : Id)
   | addLanelet (l : Id)
+  /-- `lanelet.static_obstacles_on_lanelet = set()`, `lanelet.dynamic_obstacles_on_lanelet = {}` (the public setters,
+      lanelet.py:463-485) on a lanelet of the network -/
+  | clearLanelet (l : Id)
+  /-- the public setters of the assignment attributes on an obstacle object, in or outside the scenario
+      (`obstacle.initial_center_lanelet_ids = …`, `obstacle.initial_shape_lanelet_ids = …`,
+      `prediction.center_lanelet_assignment = …`, `prediction.shape_lanelet_assignment = …`; obstacle.py:257-293,
+      prediction.py:330-360): the registries are not touched -/
+  | setFwd (o : Id) (f : Fwd)
+  /-- any read-only query (`occupancy_at_time`, `find_lanelet_by_*`, `Lanelet.get_obstacles`, `obstacle_by_id`, …) -/
+  | query
 
 /-- the registries of lanelet `l` are gone (removed object) resp. empty (fresh object) -/
 def St.dropLanelet (s : St) (l : Id) : St :=
@@ -55,6 +65,10 @@ def nstep (E : Env) (legacy : Bool) (n : NSt) : NOp → Res NSt
   | .addLanelet l =>
     if l ∈ n.present ∨ l ∈ n.st.statics ∨ l ∈ n.st.dynamics then .error .value      -- "ID … is already used."
     else .ok { present := n.present ++ [l], st := n.st.dropLanelet l }
+  | .clearLanelet l =>
+    if l ∈ n.present then .ok { n with st := n.st.dropLanelet l } else .error .attr    -- `find_lanelet_by_id(l)` is `None`
+  | .setFwd o f => .ok { n with st := n.st.setFwd o f }
+  | .query => .ok n
 
 def nrun (E : Env) (legacy : Bool) (n : NSt) (ops : List NOp) : Res NSt := ops.foldlM (nstep E legacy) n
 
